@@ -1,5 +1,6 @@
 """C11  Relations evaluate and slice consistently with their definition."""
 import functools
+import os
 import itertools
 
 from hypothesis import strategies as st
@@ -32,7 +33,7 @@ BUDGET = {"quick": {"workers": 6, "examples": 1500, "seconds": 40},
           "thorough": {"workers": 12, "examples": 6000, "seconds": 480}}
 
 KINDS = ["matrix", "expr_str", "nary_expr", "nary_expr_kw", "pyfunc", "partial", "unary_func",
-         "unary_bool", "zeroary", "neutral", "conditional"]
+         "unary_bool", "zeroary", "neutral", "conditional", "external"]
 
 
 @st.composite
@@ -55,6 +56,13 @@ def simple_rel(draw, names, doms, kinds, min_arity=0, name="r"):
         r["table"] = gen.nested_table(draw, [len(doms[s]) for s in scope], gen.mixed_costs)
     elif kind in ("expr_str", "nary_expr", "nary_expr_kw"):
         r["expr"] = gen.int_expression(draw, scope)
+    elif kind == "external":
+        # constraint_from_external_definition: the expression calls a helper defined in a python file; another
+        # relation using a helper of the same name from ANOTHER file is created before this one is evaluated
+        r["expr"] = gen.int_expression(draw, scope)
+        r["helper"] = [draw(st.integers(-3, 3)), draw(st.integers(-9, 9))]
+        r["decoy"] = [draw(st.integers(4, 6)), draw(st.integers(10, 20))]
+        r["decoy_when"] = draw(st.sampled_from(["never", "before", "after", "after", "after-sliced"]))
     elif kind in ("pyfunc", "partial"):
         args = ["p%d" % i for i in range(len(scope))]
         r["args"] = args
@@ -132,6 +140,8 @@ def ref_value(desc, rel, a):
         return oracles.constraint_value(desc, rel, a)
     if k in ("expr_str", "nary_expr", "nary_expr_kw"):
         return oracles.ref_eval(rel["expr"], {n: a[n] for n in rel["scope"]})
+    if k == "external":
+        return rel["helper"][0] * oracles.ref_eval(rel["expr"], {n: a[n] for n in rel["scope"]}) + rel["helper"][1]
     if k in ("pyfunc", "partial"):
         env = {p: a[n] for p, n in zip(rel["args"], rel["scope"])}
         return oracles.ref_eval(rel["expr"], env) + (rel.get("extra", 0) if k == "partial" else 0)
@@ -160,6 +170,28 @@ def build_rel(desc, rel, variables):
     if k == "expr_str":
         # all variables offered in the order of the description (a permutation of the scope order)
         return R.constraint_from_str(rel["name"], rel["expr"], list(variables.values()))
+    if k == "external":
+        def source(tag, km):
+            p = os.path.join(os.getcwd(), "c11_%d_%s.py" % (os.getpid(), tag))
+            with open(p, "w", encoding="utf-8") as f:
+                f.write("def helper(x):\n    return %d * x + %d\n" % tuple(km))
+            return p
+
+        def decoy():
+            d = R.constraint_from_external_definition("decoy", source("decoy", rel["decoy"]),
+                                                      "source.helper(%s)" % rel["scope"][0], list(variables.values()))
+            d.slice({rel["scope"][0]: desc["domains"][oracles.var_desc(desc, rel["scope"][0])["domain"]][0]})
+        when = rel.get("decoy_when", "never")
+        if when == "before":
+            decoy()
+        r = R.constraint_from_external_definition(rel["name"], source("main", rel["helper"]),
+                                                  "source.helper(%s)" % rel["expr"], list(variables.values()))
+        if when == "after-sliced":
+            v0 = rel["scope"][0]
+            r.slice({v0: desc["domains"][oracles.var_desc(desc, v0)["domain"]][0]})
+        if when in ("after", "after-sliced"):
+            decoy()
+        return r
     if k == "nary_expr":
         return R.NAryFunctionRelation(ExpressionFunction(rel["expr"]), scope, name=rel["name"])
     if k == "nary_expr_kw":
